@@ -158,10 +158,12 @@ static void
 focus(struct initparser *p)
 {
 	struct type *t;
+	unsigned long long off;
 
 	switch (p->sub->type->kind) {
 	case TYPEARRAY:
 		t = p->sub->type->base;
+		off = 0;
 		p->sub->u.idx = 0;
 		if (p->sub->type->incomplete)
 			p->sub->type->size = t->size;
@@ -170,12 +172,14 @@ focus(struct initparser *p)
 	case TYPEUNION:
 		p->sub->u.mem = p->sub->type->u.structunion.members;
 		t = p->sub->u.mem->type;
+		/* the first member may follow unnamed bit-fields */
+		off = p->sub->u.mem->offset;
 		break;
 	default:
 		fatal("internal error: init cursor has unexpected type");
 		return;  /* unreachable */
 	}
-	subobj(p, t, 0);
+	subobj(p, t, off);
 }
 
 static void
